@@ -300,7 +300,12 @@ def parse_version_info(version_str: str, raw_pattern: str = "vYYYY0M.BUILD[-TAG]
         raise version.PatternError(err_msg)
     else:
         field_values = match.groupdict()
-        return parse_field_values_to_vinfo(field_values)
+        try:
+            return parse_field_values_to_vinfo(field_values)
+        except ValueError as ex:
+            # e.g. 2020.02.30 for YYYY.0M.0D: "day is out of range for month"
+            err_msg = f"Invalid version string '{version_str}' for pattern '{raw_pattern}': {ex}"
+            raise version.PatternError(err_msg)
 
 
 def is_valid(version_str: str, raw_pattern: str = "vYYYY.BUILD[-TAG]") -> bool:
